@@ -517,6 +517,55 @@ impl World {
         }
         out
     }
+    /// identifiers of all pools as stored (raw read of the pool manager's map)
+    pub fn pool_ids_raw(&self) -> Vec<String> {
+        let st = self.app.contract_storage(&self.a.pm);
+        pool_manager::state::POOLS.keys(&*st, None, None, Order::Ascending).map(|r| r.expect("pool key")).collect()
+    }
+    /// all pools through the public query in pages of `limit` (None: the default page size)
+    pub fn pools_via_query(&self, limit: Option<u32>) -> Result<Vec<PoolInfoResponse>, String> {
+        let mut out: Vec<PoolInfoResponse> = vec![];
+        let mut start_after: Option<String> = None;
+        for _ in 0..80 {
+            let r: Result<PoolsResponse, _> = self.app.wrap().query_wasm_smart(
+                self.a.pm.to_string(),
+                &mantra_dex_std::pool_manager::QueryMsg::Pools { pool_identifier: None, start_after: start_after.clone(), limit },
+            );
+            let r = r.map_err(|e| e.to_string())?;
+            let n = r.pools.len();
+            if n == 0 {
+                break;
+            }
+            start_after = Some(r.pools.last().unwrap().pool_info.pool_identifier.clone());
+            out.extend(r.pools);
+            if (n as u32) < limit.unwrap_or(10) {
+                break;
+            }
+        }
+        Ok(out)
+    }
+    /// all positions through the unfiltered public listing in pages of `limit`
+    pub fn positions_listing_via_query(&self, filter_by: Option<mantra_dex_std::farm_manager::PositionsBy>, limit: u32) -> Result<Vec<Position>, String> {
+        let mut out: Vec<Position> = vec![];
+        let mut start_after: Option<String> = None;
+        for _ in 0..80 {
+            let r: Result<mantra_dex_std::farm_manager::PositionsResponse, _> = self.app.wrap().query_wasm_smart(
+                self.a.fm.to_string(),
+                &mantra_dex_std::farm_manager::QueryMsg::Positions { filter_by: filter_by.clone(), open_state: None, start_after: start_after.clone(), limit: Some(limit) },
+            );
+            let r = r.map_err(|e| e.to_string())?;
+            let n = r.positions.len();
+            if n == 0 {
+                break;
+            }
+            start_after = Some(r.positions.last().unwrap().identifier.clone());
+            out.extend(r.positions);
+            if (n as u32) < limit {
+                break;
+            }
+        }
+        Ok(out)
+    }
     pub fn farms(&self) -> Vec<Farm> {
         let st = self.app.contract_storage(&self.a.fm);
         farm_manager::state::FARMS
